@@ -48,8 +48,13 @@ def _text(perm, hdr, nrows, tab, style_b, yy, mon, corrupt, where):
     return '\n'.join(lines) + '\n', names, model
 
 
-def _dat(perm, hdr, nrows, tab, style_b, yy, mon, corrupt, where):
+def _dat(perm, hdr, nrows, tab, style_b, yy, mon, corrupt, where, eol=0):
     text, names, model = _text(perm, hdr, nrows, tab, style_b, yy, mon, corrupt, where)
+    # line ends: 0 LF, 1 LF without a final line end, 2 CRLF, 3 CRLF without a final line end
+    if eol & 1:
+        text = text[:-1]
+    if eol & 2:
+        text = text.replace('\n', '\r\n')
     mark.hit()
     bad = corrupt in (3, 4) or (corrupt in (1, 2) and nrows > 0)
     try:
@@ -78,30 +83,34 @@ def _dat(perm, hdr, nrows, tab, style_b, yy, mon, corrupt, where):
     return True
 
 
-def dat_files(perm: int, hdr: int, nrows: int, tab: bool, style_b: bool, yy: int, mon: int, corrupt: int, where: int) -> bool:
+def dat_files(perm: int, hdr: int, nrows: int, tab: bool, style_b: bool, yy: int, mon: int, corrupt: int, where: int, eol: int = 0) -> bool:
     """
     pre: 0 <= perm <= 3 and 0 <= hdr <= 3 and 0 <= nrows <= 2
     pre: 0 <= yy <= 5 and 0 <= mon <= 11 and 0 <= corrupt <= 4 and 0 <= where <= 3
     pre: corrupt != 0 or where == 0
+    pre: 0 <= eol <= 3
     pre: PART < 0 or corrupt * 4 + perm == PART
     post: _
     """
     perm, hdr, nrows, yy, mon = mark.pick(perm, 0, 3), mark.pick(hdr, 0, 3), mark.pick(nrows, 0, 2), mark.pick(yy, 0, 5), mark.pick(mon, 0, 11)
     corrupt, where, tab, style_b = mark.pick(corrupt, 0, 4), mark.pick(where, 0, 3), mark.pickb(tab), mark.pickb(style_b)
+    eol = mark.pick(eol, 0, 3)
     with mark.untraced():
-        return _dat(perm, hdr, nrows, tab, style_b, yy, mon, corrupt, where)
+        return _dat(perm, hdr, nrows, tab, style_b, yy, mon, corrupt, where, eol)
 
 
-def dat_files_q(perm: int, hdr: int, nrows: int, tab: bool, style_b: bool, yy: int, mon: int, corrupt: int, where: int) -> bool:
+def dat_files_q(perm: int, hdr: int, nrows: int, tab: bool, style_b: bool, yy: int, mon: int, corrupt: int, where: int, eol: int = 0) -> bool:
     """
     pre: 0 <= perm <= 3 and 0 <= hdr <= 3 and 0 <= nrows <= 2
     pre: 0 <= yy <= 5 and mon in (0, 1, 11) and 0 <= corrupt <= 4 and 0 <= where <= 1
     pre: corrupt != 0 or where == 0
     pre: corrupt == 0 or (yy == 1 and mon == 11)
+    pre: 0 <= eol <= 3 and (corrupt == 0 or eol <= 1)
     pre: PART < 0 or corrupt * 4 + perm == PART
     post: _
     """
     perm, hdr, nrows, yy, mon = mark.pick(perm, 0, 3), mark.pick(hdr, 0, 3), mark.pick(nrows, 0, 2), mark.pick(yy, 0, 5), mark.pick_from(mon, (0, 1, 11))
     corrupt, where, tab, style_b = mark.pick(corrupt, 0, 4), mark.pick(where, 0, 1), mark.pickb(tab), mark.pickb(style_b)
+    eol = mark.pick(eol, 0, 3)
     with mark.untraced():
-        return _dat(perm, hdr, nrows, tab, style_b, yy, mon, corrupt, where)
+        return _dat(perm, hdr, nrows, tab, style_b, yy, mon, corrupt, where, eol)
